@@ -36,7 +36,7 @@ def _case(draw):
     dense = draw(st.sampled_from([True, True, False]))
     spec = draw(D.dataset_spec(dense=dense, raw=False, features=False, tfeatures=False,
                                naming='ks', max_nc=24 if dense else 10, curated=None,
-                               probe_labels=True, scales=[1.0, 1.0, 1e-4, 1e-6, 300.0],
+                               probe_labels=True, scales=[1.0, 1.0, 1e-4, 1e-6, 1e-9, 300.0],
                                footprints=True))
     nc = spec['nc']
     explicit = [draw(st.lists(st.integers(0, nc - 1), min_size=1, max_size=min(nc, 5), unique=True))
